@@ -16,9 +16,16 @@ class Undecided(AnalysisBroken):
     pass
 
 
+class _Return(Exception):
+    def __init__(self, value):
+        Exception.__init__(self, "return")
+        self.value = value
+
+
 class VecEval:
-    def __init__(self, P, F, env=None, choose=None):
+    def __init__(self, P, F, env=None, choose=None, opaque=None):
         self.P, self.F = P, F
+        self.opaque = opaque                 # opaque(qualified name) -> True: keep the call as an uninterpreted function of its arguments
         self.env = dict(env or {})          # decl key -> value
         self.choose = choose or (lambda v, n: None)
         self.trace = []                      # (condition value, truth) decided on the way
@@ -69,6 +76,8 @@ class VecEval:
             i = r(s[1])
             if isinstance(b, tuple) and i.is_Integer:
                 return b[int(i)]
+            if not isinstance(b, tuple) and not isinstance(i, tuple):
+                return sp.Function("at")(b, i)          # an element of something this evaluator has no value for
             raise AnalysisBroken("subscript of %s" % norm.render(P, n)[:40])
         if k in ("CXXConstructExpr", "CXXTemporaryObjectExpr"):
             args = [a for a in c if a is not None and a.get("k") != "CXXDefaultArgExpr" and "CoordinateSystem" not in (sc(a).get("t") or "")]
@@ -108,7 +117,10 @@ class VecEval:
             else:
                 if op in ("&&", "||"):
                     a, b = r(c[0]), r(c[1])
-                    return sp.And(a, b) if op == "&&" else sp.Or(a, b)
+                    try:
+                        return sp.And(a, b) if op == "&&" else sp.Or(a, b)
+                    except TypeError:
+                        return sp.Function("land" if op == "&&" else "lor")(a, b)
                 a, b = r(c[0]), r(c[1])
             ta, tb = isinstance(a, tuple), isinstance(b, tuple)
             if op in ("+", "-"):
@@ -144,6 +156,17 @@ class VecEval:
                 if isinstance(v, tuple):
                     q = sum(x ** 2 for x in v)
                     return sp.sqrt(q) if nm == "norm" else q
+            if nm in ("get_coordinate_system",) and base is not None:
+                return sp.Symbol("coordinate_system_of_" + norm.render(P, base, nocast=True))
+            d_ = P.d(n.get("callee")) if n.get("callee") else {}
+            if self.opaque is not None and self.opaque(d_.get("qn", "") or ""):
+                flat = []
+                for a in c[1:]:
+                    if a is None or a.get("k") == "CXXDefaultArgExpr":
+                        continue
+                    v = r(a)
+                    flat += list(v) if isinstance(v, tuple) else [v]
+                return sp.Function(d_.get("n", "f"))(*flat)
             raise AnalysisBroken("member call %s" % norm.render(P, n)[:50])
         if k == "CallExpr":
             d = P.d(n.get("callee")) if n.get("callee") else {}
@@ -164,6 +187,13 @@ class VecEval:
                 return args[0] ** args[1]
             if base in ("min", "max") and len(args) == 2:
                 return (sp.Min if base == "min" else sp.Max)(*args)
+            if self.opaque is not None and self.opaque(qn):
+                flat = []
+                for a in args:
+                    flat += list(a) if isinstance(a, tuple) else [a]
+                return sp.Function(nm or "f")(*flat)
+            if (qn.startswith("std::") or "::" not in qn) and nm and all(not isinstance(a, tuple) for a in args):
+                return sp.Function(nm)(*args)       # a library function of scalars this evaluator does not interpret: kept symbolic
             raise AnalysisBroken("call to %s" % (qn or "?"))
         if k == "InitListExpr":
             vals = [r(x) for x in c if x is not None]
@@ -176,6 +206,8 @@ class VecEval:
             cv = r(c[0])
             t = self.decide(cv, c[0])
             return r(c[1] if t else c[2])
+        if k in ("SubstNonTypeTemplateParmExpr", "CXXDefaultArgExpr", "CXXDefaultInitExpr") and len([x for x in c if x is not None]) == 1:
+            return r([x for x in c if x is not None][0])
         raise AnalysisBroken("expression kind %s (%s)" % (k, norm.render(P, n)[:40]))
 
     def decide(self, cv, node):
@@ -183,6 +215,14 @@ class VecEval:
             return True
         if cv is sp.false or cv is False:
             return False
+        if not getattr(cv, "free_symbols", True):
+            try:
+                v = cv.doit() if hasattr(cv, "doit") else cv
+                v = sp.simplify(v)
+                if v in (sp.true, sp.false):
+                    return v == sp.true
+            except Exception:
+                pass
         t = self.choose(cv, node)
         if t is None:
             raise Undecided("undecided condition `%s` (%s)" % (norm.render(self.P, node)[:70], str(cv)[:80]))
@@ -260,6 +300,8 @@ class VecEval:
             return        # an assertion macro compiled out (do {} while (false))
         elif k in ("ExprWithCleanups",):
             self.stmt(s["c"][0])
+        elif k == "ReturnStmt" and getattr(self, "allow_return", False):
+            raise _Return(self.ev(s["c"][0]) if s.get("c") and s["c"][0] is not None else None)
         elif k in ("ContinueStmt", "BreakStmt", "ReturnStmt"):
             raise AnalysisBroken("control leaves the block (%s)" % k)
         else:
@@ -267,3 +309,14 @@ class VecEval:
             if k in ("CallExpr", "CXXMemberCallExpr"):
                 return
             raise AnalysisBroken("statement kind %s" % k)
+
+    def run_function(self, stmts):
+        """fold the statements up to the first return on this path; the returned value (None if the end is reached)"""
+        self.allow_return = True
+        try:
+            self.run(stmts)
+        except _Return as r_:
+            return r_.value
+        finally:
+            self.allow_return = False
+        return None
